@@ -8,7 +8,7 @@ import symtable
 from ..report import rule
 from ..model import norm, NotConst, calls_in, stores_in, ShapeError, AnchorMissing, is_self_attr
 from ..paths import enumerate_paths, facts_at, walk_shallow, enclosing_stmt, enclosing_loops
-from ..guards import Evaluator, atom_texts
+from ..guards import Evaluator, atom_texts, atoms_of_facts
 from .common import where, path_nodes, body_paths, consistent
 
 MOD = "netservice"
@@ -86,9 +86,11 @@ def r2(ctx):
                     continue
                 nodes = path_nodes(p)
                 pi_store = [n for n in nodes if isinstance(n, ast.Assign) and norm(n.targets[0]).startswith("self.path_info[")]
-                pi_del = [n for n in nodes if isinstance(n, ast.Delete) and norm(n.targets[0]).startswith("self.path_info[")]
+                pi_del = [n for n in nodes if isinstance(n, ast.Delete) and norm(n.targets[0]).startswith("self.path_info[")] + \
+                    [n for n in nodes if isinstance(n, ast.Call) and isinstance(n.func, ast.Attribute) and n.func.attr == "pop" and norm(n.func.value) == "self.path_info"]
                 dn_store = [n for n in nodes if isinstance(n, ast.Assign) and ".dnets[" in norm(n.targets[0])]
-                dn_del = [n for n in nodes if isinstance(n, ast.Delete) and ".dnets[" in norm(n.targets[0])]
+                dn_del = [n for n in nodes if isinstance(n, ast.Delete) and ".dnets[" in norm(n.targets[0])] + \
+                    [n for n in nodes if isinstance(n, ast.Call) and isinstance(n.func, ast.Attribute) and n.func.attr == "pop" and norm(n.func.value).endswith(".dnets")]
                 for s in pi_store:
                     r = norm(s.value)
                     ok = any(norm(d.targets[0]).startswith(r + ".dnets[") for d in dn_store)
@@ -99,6 +101,30 @@ def r2(ctx):
                     ok = len(pi_del) == len(dn_del) or (whole and not dn_del)
                     ctx.check("%s:path-dropped-with-destination@%d" % (fname, _ord(f, lp)), ok, where(m, (pi_del + dn_del)[0]),
                               "a loop pass deletes %d path entries but %d destination entries" % (len(pi_del), len(dn_del)))
+        # every path key is (the network the router map is indexed by in this call, destination); an entry is dropped
+        # only for a destination the edited router owns
+        rkeys = _router_map_keys(f)
+        for acc, key, node in _path_accesses(f):
+            if not (isinstance(key, ast.Tuple) and len(key.elts) == 2):
+                ctx.check("%s:path-key-shape@%d" % (fname, _ord_call(f, node)), False, where(m, node), "path index accessed with %s instead of a (source network, destination) pair" % norm(key))
+                continue
+            ctx.check("%s:path-key-network[%s]@%d" % (fname, acc, _ord_call(f, node)), norm(key.elts[0]) in rkeys, where(m, node),
+                      "the path index is accessed under network %s but the router map of this call is indexed by %s: after a renumbering the two differ and the wrong entry is touched" % (norm(key.elts[0]), sorted(rkeys)))
+            if acc in ("del", "pop"):
+                d_txt = norm(key.elts[1])
+                owned = False
+                for a, pol in atoms_of_facts(facts_at(node)):
+                    if pol and isinstance(a, ast.Compare) and len(a.ops) == 1 and isinstance(a.ops[0], ast.In) and norm(a.left) == d_txt \
+                            and isinstance(a.comparators[0], ast.Attribute) and a.comparators[0].attr == "dnets":
+                        owned = True
+                for lp in enclosing_loops(node):
+                    it = lp.iter if isinstance(lp, ast.For) else None
+                    if isinstance(it, ast.Call) and norm(it.func) in ("list", "tuple", "sorted", "set") and len(it.args) == 1:
+                        it = it.args[0]
+                    if isinstance(it, ast.Attribute) and it.attr == "dnets" and isinstance(lp.target, ast.Name) and lp.target.id == d_txt:
+                        owned = True
+                ctx.check("%s:path-dropped-only-if-owned@%d" % (fname, _ord_call(f, node)), owned, where(m, node),
+                          "the path to %s is removed without testing that the router being edited still owns that destination: a path that now belongs to another router disappears" % d_txt)
         # router records
         for d in [n for n in walk_shallow(f) if isinstance(n, ast.Delete) and norm(n.targets[0]).startswith("self.routers[")]:
             fa = facts_at(d)
@@ -123,6 +149,37 @@ def r2(ctx):
             ctx.check("%s:router-dropped-only-when-empty@%d" % (fname, _ord(f, d)), guarded or covered, where(m, d),
                       "the router record is deleted although it may still own destinations whose path entries stay behind (lookups then lead to a forgotten router)",
                       facts={"guards": [repr(x) for x in fa]})
+
+
+def _router_map_keys(f):
+    """texts used to index self.routers in this function"""
+    out = set()
+    for n in ast.walk(f):
+        if isinstance(n, ast.Subscript) and norm(n.value) == "self.routers":
+            out.add(norm(n.slice))
+        if isinstance(n, ast.Call) and isinstance(n.func, ast.Attribute) and norm(n.func.value) == "self.routers" and n.func.attr in ("get", "pop", "setdefault") and n.args:
+            out.add(norm(n.args[0]))
+        if isinstance(n, ast.Compare) and len(n.ops) == 1 and isinstance(n.ops[0], (ast.In, ast.NotIn)) and norm(n.comparators[0]) == "self.routers":
+            out.add(norm(n.left))
+    return out
+
+
+def _path_accesses(f):
+    """(kind, key expr, node) for every access to self.path_info: store / del / load / pop / get"""
+    out = []
+    for n in ast.walk(f):
+        if isinstance(n, ast.Subscript) and norm(n.value) == "self.path_info":
+            kind = {ast.Store: "store", ast.Del: "del", ast.Load: "load"}[type(n.ctx)]
+            out.append((kind, n.slice, n))
+        if isinstance(n, ast.Call) and isinstance(n.func, ast.Attribute) and norm(n.func.value) == "self.path_info" and n.func.attr in ("get", "pop", "setdefault") and n.args:
+            out.append((n.func.attr, n.args[0], n))
+    out.sort(key=lambda t: (t[2].lineno, t[2].col_offset))
+    return out
+
+
+def _ord_call(f, node):
+    acc = [x[2] for x in _path_accesses(f)]
+    return acc.index(node) + 1 if node in acc else 0
 
 
 def _ord(f, node):
